@@ -25,8 +25,7 @@ Start(rec) == [r |-> Unpack(rec.pre), mem |-> Oracle(rec.acc), io |-> IoOracle(r
 
 \* records the specification declines to decide (with the reason), counted by the runner
 Undecided(rec) ==
-    LET i == Decode(rec.op) IN
-    \/ i # 0 /\ Rows[i].key = "tstb/SttMod,Imm16" /\ rec.x >= 32     \* C++ shift count >= 32: undefined behaviour
+    FALSE        \* (none at present; tstb with a bit index >= 32 was undefined C++ until the fix in /repo)
 
 RecOk(rec) ==
     LET s1 == CoreCycle(Start(rec)) IN
